@@ -45,7 +45,8 @@ class Run(object):
         self.known_hit = {}         # deviation -> count
         self.notes = {}
         self.mc_runs = []
-        self.canaries = [0, 0]      # planted, rejected
+        self.canaries = [0, 0]      # planted (usable), rejected
+        self.canaries_attempted = 0
         self.cmds = []
         self.known = [k for k in load_known() if k['property'] == pid]
         self.assumptions = []
@@ -98,9 +99,12 @@ class Run(object):
             tid = tr['id']
             status, idx, why = verdicts[tid]
             if tid in canary_ids:
+                self.canaries_attempted += 1
                 orig = verdicts.get(tr.get('canary_of'))
                 if orig is not None and orig[0] != 'ok':
                     continue        # the trace it was derived from is not accepted itself: not a usable canary
+                if status == 'SKIP':
+                    continue        # the corrupted copy landed in an unspecified zone: not a usable canary
                 self.canaries[0] += 1
                 if status == 'FAIL':
                     self.canaries[1] += 1
@@ -166,6 +170,8 @@ class Run(object):
 
     def finish(self, rule, explanation, level='model_checking', extra=None):
         wall = time.time() - self.t0
+        if self.canaries_attempted and not self.canaries[1] and not self.violations:
+            raise MachineryError('no usable canary was rejected in this run: the binding was not demonstrated')
         cov = {
             'states': max(self.states, 1),
             'transitions': max(self.transitions, 1),
